@@ -326,7 +326,7 @@ var smtPreludeGroups = []struct {
 (declare-fun substr (Int Int Int) Int)
 (declare-fun strcat (Int Int) Int)
 (declare-fun rune2str (Int) Int)
-(assert (forall ((s Int)) (! (>= (strlen s) 0) :pattern ((strlen s)))))
+(assert (forall ((s Int)) (! (and (>= (strlen s) 0) (<= (strlen s) 1099511627776)) :pattern ((strlen s)))))
 (assert (= (strlen 0) 0))
 (assert (forall ((s Int)) (! (=> (= (strlen s) 0) (= s 0)) :pattern ((strlen s)))))
 (assert (forall ((s Int) (i Int)) (! (and (<= 0 (strbyte s i)) (<= (strbyte s i) 255)) :pattern ((strbyte s i)))))
